@@ -52,7 +52,7 @@ def ordered_io(ctx: Ctx, chk) -> None:
     n = 0
     execs = set()
     seen: set = set()
-    for fl in pers.methods.values():
+    for fl in pers.mro_methods().values():
         for f0 in fl:
             f = ctx.inl(f0)
             cn = Canon(ctx.I, f)
